@@ -202,7 +202,19 @@ USES = [
     ("filter-arg", "{{ 'a' | append: @ }}"), ("filter-first", "{{ @ | first }}"), ("assign-output", "{% assign v = @ %}{{ v }}"), ("capture", "{% capture v %}{{ @ }}{% endcapture %}"),
     ("liquid-echo", "{% liquid\n echo @\n%}"), ("range", "{% for i in (1..@) %}x{% endfor %}"),
 ]
-PROBE_DATA = {"h": {"a": 1, "e2": []}, "xs": [1], "e": [], "eh": {}, "s": "str", "n": 5, "d": {"a": {"b": 1}, "list": ["p"]}}
+# uses of a missing value that some strict type tolerates (default filter, truthiness, equality with nil / false, a filter argument that
+# is only compared): whenever a strict type completes the render, its output must be the default type's output
+TOLERANT_USES = [
+    "{{ @ | default: 'd' }}", "{{ @ | default: 'd', allow_false: true }}", "{{ @ | default: 'd', allow_false: false }}", "{% assign v = @ | default: 'x' %}[{{ v }}]",
+    "{{ @ | default: nosuch2 }}|", "{% if @ %}y{% else %}n{% endif %}", "{% unless @ %}y{% else %}n{% endunless %}", "{% if @ == nil %}y{% else %}n{% endif %}",
+    "{% if @ == false %}y{% else %}n{% endif %}", "{% if @ != nil %}y{% else %}n{% endif %}", "{% if nil == @ %}y{% else %}n{% endif %}", "{% if @ == empty %}y{% else %}n{% endif %}",
+    "{% if @ == blank %}y{% else %}n{% endif %}", "{% if @ and true %}y{% else %}n{% endif %}", "{% if @ or false %}y{% else %}n{% endif %}", "{% if @ == nosuch2 %}y{% else %}n{% endif %}",
+    "{% case @ %}{% when nil %}y{% else %}n{% endcase %}", "{% case nil %}{% when @ %}y{% else %}n{% endcase %}", "{{ os | has: 'k', @ }}", "{{ os | has: 'j', @ }}",
+    "{{ os | find: 'k', @ | json }}", "{{ os | find_index: 'j', @ }}", "{{ os | where: 'k', @ | size }}", "{{ os | reject: 'k', @ | size }}", "{{ os | map: 'k' | compact | size }}",
+    "{{ xs | concat: e | first | default: @ | default: 'z' }}", "{% if xs contains @ %}y{% else %}n{% endif %}", "{{ 'a' | default: @ }}", "{{ false | default: @, allow_false: true }}|",
+    "{{ nil | default: @ | default: 'q' }}", "{% assign w = @ %}{% if w %}y{% else %}n{% endif %}", "{% capture w %}{% if @ %}y{% endif %}{% endcapture %}[{{ w }}]",
+]
+PROBE_DATA = {"os": [{"k": 1}, {"j": 2}, {"k": None}, {"k": False}], "h": {"a": 1, "e2": []}, "xs": [1], "e": [], "eh": {}, "s": "str", "n": 5, "d": {"a": {"b": 1}, "list": ["p"]}}
 
 
 def cases(ctx: core.Ctx):
@@ -215,6 +227,12 @@ def cases(ctx: core.Ctx):
             if k % ctx.nshards != ctx.shard:
                 continue
             yield {"source": t.replace("@", path), "data": V.enc(PROBE_DATA), "probe": f"{use}:{path_class(path)}", "async": k % 5 == 0, "implicit": k % 6 == 0 and "liquid" not in t}
+    for path in MISSING:
+        for t in TOLERANT_USES:
+            k += 1
+            if k % ctx.nshards != ctx.shard:
+                continue
+            yield {"source": t.replace("@", path), "data": V.enc(PROBE_DATA), "async": k % 4 == 0}
     rng = ctx.rng("cases")
     for _ in range(ctx.budget(5000, 400_000)):
         yield gen_case(rng)
